@@ -32,6 +32,12 @@
    sub-directory and file names repeat the text of the input path (in/main,
    configs/old_configs, an input name that is a prefix of a sibling); judged
    by the same one-to-one / content / nothing-else-written clauses.
+7. Blocked output sub-directory (regular file where a sub-directory of the
+   output is needed): a third fault kind of the generated scenarios (M action
+   FailOutDirBlocked: every file below it fails on its own and is reported,
+   all others are written) plus hand-built trees with several sibling
+   sub-directories.  Clause CallRaised: anonymize_files / main must not let a
+   per-file error escape (anonymize_file may: its contract is to raise).
 """
 import concurrent.futures
 import itertools
@@ -47,7 +53,7 @@ from common import Check, rng, validate_traces
 
 DIRS = [0, 1, 2, 3]
 NAMES = ["a", "b", "sp", "uni", "dot"]
-FAULTS = ["none", "decode", "outdir"]
+FAULTS = ["none", "decode", "outdir", "blocked"]
 FEAT_ORDER = ["PAWN", "P", "A"]
 
 
@@ -83,15 +89,20 @@ def expected_keys(maxfiles, withenv, withsingle):
     esubs = [False, True] if withenv else [False]
     for n in range(1, maxfiles + 1):
         for T in itertools.combinations(kinds, n):
-            doms = [FAULTS if (d != 3 and nm != "dot") else FAULTS[:2] for d, nm in T]
+            vis = [d != 3 and nm != "dot" for d, nm in T]
+            doms = [FAULTS[:2] if not v else FAULTS[:3] if d == 0 else FAULTS for (d, nm), v in zip(T, vis)]
             for fl in itertools.product(*doms):
+                # "blocked" is a directory-level fault: same directory and the directory below (2 below 1) share it
+                if any(fk == "blocked" and vj and fj != "blocked" and (dj == dk or (dj == 2 and dk == 1))
+                       for (dk, _), fk, vk in zip(T, fl, vis) if vk for (dj, _), fj, vj in zip(T, fl, vis)):
+                    continue
                 files = tuple(sorted((d, nm, f) for (d, nm), f in zip(T, fl)))
                 for p in pres:
                     for e in esubs:
                         keys.add(("tree", p, e, files))
     if withsingle:
         for nm in NAMES[:4]:
-            for f in FAULTS:
+            for f in FAULTS[:3]:
                 for p in ("absent", "stale"):
                     for e in (False, True):
                         if e and (p != "absent" or f == "outdir"):
@@ -173,7 +184,7 @@ def worker_main(jobfile, outfile, fsroot):
     groups = json.load(open(jobfile, encoding="utf-8"))
     with open(outfile, "w", encoding="utf-8") as fh:
         for g in groups:
-            fn = {"iso": W.run_iso, "rel": W.run_rel}.get(g.get("kind"), W.run_group)
+            fn = {"iso": W.run_iso, "rel": W.run_rel, "blk": W.run_blocked}.get(g.get("kind"), W.run_group)
             res = fn(g, fsroot, common.REPO)
             fh.write(json.dumps(res) + "\n")
 
@@ -183,7 +194,7 @@ def run_groups(groups, nproc=common.NPROC):
     shards = [[] for _ in range(nproc)]
     # balance by number of executions
     loads = [0] * nproc
-    cost = lambda g: (8 * len(g["entries"]) if g.get("kind") == "iso" else 2 * len(g["entries"]) if g.get("kind") == "rel" else
+    cost = lambda g: (8 * len(g["entries"]) if g.get("kind") == "iso" else 2 * len(g["entries"]) if g.get("kind") in ("rel", "blk") else
                       sum(len(s["entries"]) + 8 * sum(e.startswith("cli") for e in s["entries"]) for s in g["scenarios"]) + 2)
     for g in sorted(groups, key=cost, reverse=True):
         j = loads.index(min(loads))
@@ -297,7 +308,7 @@ def run(pid, tier):
     gks = sorted({group_key(s) for s in s3})
     if not thorough:
         # quick: every tree keeps its no-fault scenario and a seeded sample of its fault assignments, one environment per tree
-        keep = [s for s in s3 if all(f["fault"] == "none" for f in s["files"]) or r.random() < 0.08]
+        keep = [s for s in s3 if all(f["fault"] == "none" for f in s["files"]) or r.random() < 0.06]
         envof = {gk: [envs[i % 6]] for i, gk in enumerate(gks)}
     else:
         # thorough: every fault assignment of every tree, under two of the six environments (all six occur over the trees)
@@ -329,7 +340,7 @@ def run(pid, tier):
         gen_counts["4 files (run: %d trees x all fault assignments)" % len(chosen)] = len(s4)
     allscn = scns + s3 + s4
     groups = build_groups(allscn, cli_every=(60 if thorough else 120), r=r, families=("lf", "nl"),
-                          main_every=(2 if thorough else 3))
+                          main_every=(2 if thorough else 4))
     by_gid = {g["gid"]: g for g in groups}
     scn_of = {s["sid"]: (g, s) for g in groups for s in g["scenarios"]}
 
@@ -352,6 +363,10 @@ def run(pid, tier):
         rcombos = [(tr, fm, "PAWN") for i, tr in enumerate(sorted(W.REL_TREES)) for fm in ("plain", forms[1 + i % 3])] + [("T-in", "absolute", "P")]
     rel_jobs = [{"kind": "rel", "gid": len(groups) + len(iso_jobs) + i, "tree": tr, "form": fm, "feat": ft, "entries": ["dir", "main"]}
                 for i, (tr, fm, ft) in enumerate(rcombos)]
+    # blocked output sub-directories, hand-built trees with several sibling sub-directories
+    bcombos = [(tr, ft, st) for tr in sorted(W.BLOCK_TREES) for ft in (("PAWN", "P") if thorough else ("PAWN",)) for st in ((False, True) if thorough else (tr == "B-two",))]
+    rel_jobs += [{"kind": "blk", "gid": len(groups) + len(iso_jobs) + len(rel_jobs) + i, "tree": tr, "form": "stale-output" if st else "bare-output",
+                  "feat": ft, "stale": st, "entries": ["dir", "main"]} for i, (tr, ft, st) in enumerate(bcombos)]
     rel_by_gid = {j["gid"]: j for j in rel_jobs}
     # ---- 3. real runs ---------------------------------------------------------
     t0 = time.time()
@@ -365,13 +380,13 @@ def run(pid, tier):
                  "other_files_after_failing": 0, "other_files_between_failing": 0, "other_files_rewritten": 0}
     rel_execs = 0
     for go in outs:
-        if go.get("kind") == "rel":
+        if go.get("kind") in ("rel", "blk"):
             job = rel_by_gid[go["gid"]]
             for res_ in go["results"]:
                 rel_execs += 1
                 traces.append(res_["events"])
                 meta.append(("rel", job, res_, None))
-                ck.count(("rel", job["tree"], job["form"], job["feat"], res_["entry"]))
+                ck.count((job["kind"], job["tree"], job["form"], job["feat"], res_["entry"]))
             continue
         if go.get("kind") == "iso":
             job = iso_by_gid[go["gid"]]
@@ -421,10 +436,14 @@ def run(pid, tier):
         if meta[ti][0] == "rel":
             _, job, res_, _ = meta[ti]
             ev = traces[ti][k]
-            key = "clause=%s entry=%s family=relative-paths tree=%s form=%s" % (clause, res_["entry"], job["tree"], job["form"])
-            what = ("%s: entry=%s cwd=sandbox input=%r output=%r options=%s tree=%s -> %s %s; files that appeared/changed elsewhere: %s; raised=%s reports=%s" %
-                    (clause, res_["entry"], res_["info"]["input_arg"], res_["info"]["output_arg"], job["feat"], W.REL_TREES[job["tree"]]["files"],
-                     ev.get("id", "end-of-run"), {x: ev[x] for x in ("pre", "out", "ref") if x in ev}, res_["info"]["others_changed"],
+            fam = "relative-paths" if job["kind"] == "rel" else "blocked-output-subdirectory"
+            key = "clause=%s entry=%s family=%s tree=%s form=%s" % (clause, res_["entry"], fam, job["tree"], job["form"])
+            if ev.get("ev") == "file":
+                key += " fault=%s" % ev["fault"]
+            tree = W.REL_TREES[job["tree"]]["files"] if job["kind"] == "rel" else W.BLOCK_TREES[job["tree"]]
+            what = ("%s: entry=%s input=%r output=%r options=%s tree=%s -> %s %s; files that appeared/changed elsewhere: %s; raised=%s reports=%s" %
+                    (clause, res_["entry"], res_["info"].get("input_arg", "<sandbox>/in"), res_["info"].get("output_arg", "<sandbox>/out"), job["feat"], tree,
+                     ev.get("id", "end-of-run"), {x: ev[x] for x in ("fault", "pre", "out", "ref", "reported", "raised") if x in ev}, res_["info"]["others_changed"],
                      res_["info"]["raised"], res_["info"]["reports"][:2]))
             ck.violation(key, what, {"rel_job": job, "entry": res_["entry"], "events": traces[ti], "failing_event": k, "clause": clause})
             continue
@@ -471,7 +490,10 @@ def run(pid, tier):
     ck.notes["phase_wall"] = tm
 
     ck.notes["scenarios"] = gen_counts
-    ck.notes["relative_path_family"] = {"jobs": len(rel_jobs), "executions": rel_execs, "trees": sorted(W.REL_TREES),
+    ck.notes["blocked_output_subdirectory_family"] = {"jobs": len(bcombos), "trees": {k: v["blocked"] for k, v in W.BLOCK_TREES.items()},
+                                                      "what": "pre-existing output directory with a regular file at the path of one or two output sub-directories "
+                                                              "(first / middle / last sibling, deeper level, ancestor); also a third fault kind 'blocked' of the TLC-generated scenarios"}
+    ck.notes["relative_path_family"] = {"jobs": len(rel_jobs) - len(bcombos), "executions": rel_execs, "trees": sorted(W.REL_TREES),
                                         "forms": forms, "what": "anonymize_files and main called with relative input/output paths (cwd = sandbox); "
                                         "directory and file names repeat the text of the input path; judged by the ordinary per-file and end clauses"}
     ck.notes["isolation_vs_absent_family"] = dict(iso_stats, jobs=len(iso_jobs),
@@ -504,7 +526,7 @@ def replay(pid, path):
     case = json.load(open(path))["case"]
     if "rel_job" in case:
         job = dict(case["rel_job"], entries=[case["entry"]])
-        res_ = W.run_rel(job, tlc.subdir("fs"), common.REPO)["results"][0]
+        res_ = (W.run_blocked if job["kind"] == "blk" else W.run_rel)(job, tlc.subdir("fs"), common.REPO)["results"][0]
         rejected, _ = validate_traces("FilesTrace", "FilesTrace.cfg", [res_["events"]])
         for ti, (k, clause) in sorted(rejected.items()):
             print("REPLAY VIOLATION: clause=%s at %s; elsewhere: %s" % (clause, res_["events"][k].get("id", "end-of-run"), res_["info"]["others_changed"]))
